@@ -324,6 +324,13 @@ def dsge_populate(rep, gt):
         pass
 
 
+def _stack_roots(g, n: int = 6):
+    """A few genomes that complete a program (explicit-state search of the stack machine) as further initial states."""
+    import geneticengine.representations.stackgggp as S
+
+    return [S.Genotype(list(gn)) for gn, _ in stack_guided_genomes(g)[:n]]
+
+
 def _e2(ctx: Ctx) -> Iterator[Event]:
     u = ctx.unit
     rep_kind = u["rep"]
@@ -351,6 +358,7 @@ def _e2(ctx: Ctx) -> Iterator[Event]:
         source_kwargs=skw,
         ops=tuple(u.get("ops", ("mutate", "crossover"))),
         post=dsge_populate if rep_kind == "dsge" else None,
+        roots=(lambda: _stack_roots(ctx.g)) if rep_kind == "stack" else None,
     )
     ctx.e2 = ss
     pending: list = []
